@@ -277,6 +277,14 @@ func init() {
 				st.sol.send("(push)")
 				st.sol.send("(assert " + tNot(t) + ")")
 				r := st.sol.check()
+				if k := st.ex.Cfg.RecordAsserts; k > 0 {
+					st.ex.mu.Lock()
+					if len(st.ex.res.AssertScripts) < k {
+						st.ex.res.AssertScripts = append(st.ex.res.AssertScripts, AssertScript{Label: label, Verdict: r,
+							Script: strings.Join(st.script, "\n") + "\n(assert " + tNot(t) + ")\n(check-sat)\n"})
+					}
+					st.ex.mu.Unlock()
+				}
 				if r == "sat" {
 					st.reportAssert(label, site, false)
 				} else if r == "unknown" {
